@@ -1,6 +1,7 @@
 """C13 - registration is transparent to the registered function or class."""
 import abc
 import collections
+import dataclasses
 import inspect
 import pickle
 import typing
@@ -104,12 +105,139 @@ class MCallable:
 
 M_CALLABLE = MCallable()
 
+
+# ---- kinds added by the vocabulary-widening round ---------------------------------------------
+@dataclasses.dataclass
+class MData:
+  """doc of MData"""
+  a: int = DA
+  tags: list = dataclasses.field(default_factory=list)
+
+
+@dataclasses.dataclass(frozen=True, slots=True)
+class MFrozen:
+  """doc of MFrozen"""
+  a: int = DA
+
+
+class MExc(Exception):
+  """doc of MExc"""
+
+  def __init__(self, a=DA):
+    super().__init__('mexc')
+    self.a = a
+
+
+class MHolder:
+
+  def bm(self, a=DA):
+    """doc of bm"""
+    return ('bm', a)
+
+
+M_BOUND = MHolder().bm            # a bound Python method (one object, kept)
+M_METHOD_WRAPPER = (5).__add__    # method-wrapper
+M_SLOT_WRAPPER = int.__add__      # slot wrapper ("wrapper_descriptor")
+M_METHOD_DESCRIPTOR = str.upper   # method descriptor (not shimmed by _ensure_wrappability)
+M_BOUND_BUILTIN = {'k': 1}.get    # builtin_function_or_method bound to an object
+
+
+class FalsyMeta(type):
+  """Classes of this metaclass are falsy (`bool(cls)` is False), like an empty registry class."""
+
+  def __len__(cls):
+    return 0
+
+
+class MFalsy(metaclass=FalsyMeta):
+  """doc of MFalsy"""
+
+  def __init__(self, a=DA):
+    self.a = a
+
+
+class FalsyCallable:
+  """A callable object that is falsy (an empty container with __call__)."""
+
+  def __init__(self):
+    self.__name__ = 'falsy_callable'
+
+  def __len__(self):
+    return 0
+
+  def __call__(self, a=DA):
+    return ('called', a)
+
+
+M_FALSY_CALLABLE = FalsyCallable()
+
 SHAPES = ['function', '__init__', '__new__', 'both', 'neither', 'metaclass', '__slots__',
           'typing.NamedTuple', 'collections.namedtuple', 'ABC subclass', 'callable object',
-          'builtin', 'class with registered method']
-MODULE_LEVEL = [m_fn, MInit, MNew, MBoth, MNeither, MMeta, MSlots, MNamed, MColl, MAbc, M_CALLABLE, sum]
+          'builtin', 'class with registered method',
+          # added by the widening round
+          'dataclass (default_factory field)', 'frozen slots dataclass', 'Exception subclass',
+          'method-wrapper', 'slot wrapper', 'method descriptor', 'bound builtin method',
+          'builtin class dict', 'collections.OrderedDict', 'bound Python method',
+          'falsy class (metaclass __len__ == 0)', 'falsy callable object',
+          'class with registered staticmethod and classmethod']
+MODULE_LEVEL = [m_fn, MInit, MNew, MBoth, MNeither, MMeta, MSlots, MNamed, MColl, MAbc, M_CALLABLE, sum, None,
+                MData, MFrozen, MExc, M_METHOD_WRAPPER, M_SLOT_WRAPPER, M_METHOD_DESCRIPTOR, M_BOUND_BUILTIN,
+                dict, collections.OrderedDict, M_BOUND, MFalsy, M_FALSY_CALLABLE, None]
 NS = len(SHAPES)
 APIS = ['configurable', 'register', 'external_configurable']
+FORMS = ['name, module= given', 'bare decorator / no name']
+USES = ['call', 'positional argument over a binding', 'user subclass of the registry version']
+C_CALLABLES = (11, 16, 17, 18, 19)        # no usable __module__; called with arguments
+NOT_CALLED_BARE = (10,)                   # a callable object without __name__ has no default name
+BUILTIN_CLASSES = (20, 21)
+# A positional argument over a bound parameter, for callable OBJECTS and BOUND Python methods: gin's
+# argument-name lookup (inspect.getfullargspec) counts `self`, so `w(3)` with a binding for `a` raises
+# "got multiple values for argument 'a'".  Reported by the widening round as a defect against the caller-wins
+# clause of C01; the statement of C13 says nothing about caller-supplied arguments, so these combinations are
+# not judged here (empty this tuple to judge them).
+POSITIONAL_SELF_SHIFT = (10, 22, 24)
+WITH_MEMBERS = (12, 25)                   # registered members are re-keyed only by register / external_configurable
+
+
+def _item1(r):
+  return r[1]
+
+
+def _attr_a(r):
+  return r.a
+
+
+def _ident(r):
+  return r
+
+
+def _key_k(r):
+  return r.get('k', DA)
+
+
+def _plus3(v):
+  return 3 + v
+
+
+# per shape: (bindable parameter or None, call arguments, observed value, value without injection,
+#             value with the parameter bound to v, positional call arguments or None, value they must give)
+_CLS = ('a', (), _attr_a, DA, _ident, (3,), 3)
+_FN = ('a', (), _item1, DA, _ident, (3,), 3)
+PROTO = {
+    0: _FN, 10: _FN, 22: _FN, 24: _FN,
+    4: (None, (), _attr_a, DA, None, None, None),
+    11: ('start', ([1, 2],), _ident, 3, _plus3, ([1, 2], 5), 8),
+    16: (None, (3,), _ident, 8, None, None, None),
+    17: (None, (5, 3), _ident, 8, None, None, None),
+    18: (None, ('ab',), _ident, 'AB', None, None, None),
+    19: (None, ('k',), _ident, 1, None, None, None),
+    20: ('k', (), _key_k, DA, _ident, None, None),
+    21: ('k', (), _key_k, DA, _ident, None, None),
+}
+
+
+def proto(shape):
+  return PROTO.get(shape, _CLS)
 
 
 def fresh_shape(shape):
@@ -176,17 +304,50 @@ def fresh_shape(shape):
       def meth(self, m=DA):
         return ('meth', m)
     return FWithMethod
+  if shape == 13:
+    @dataclasses.dataclass
+    class FData:
+      """doc of FData"""
+      a: int = DA
+      tags: list = dataclasses.field(default_factory=list)
+    return FData
+  if shape == 14:
+    @dataclasses.dataclass(frozen=True, slots=True)
+    class FFrozen:
+      a: int = DA
+    return FFrozen
+  if shape == 15:
+    class FExc(Exception):
+      """doc of FExc"""
+      def __init__(self, a=DA):
+        super().__init__('fexc')
+        self.a = a
+    return FExc
+  if shape == 23:
+    class FFalsy(metaclass=FalsyMeta):
+      """doc of FFalsy"""
+      def __init__(self, a=DA):
+        self.a = a
+    return FFalsy
+  if shape == 25:
+    class FMembers:
+      """doc of FMembers"""
+      def __init__(self, a=DA):
+        self.a = a
+      @staticmethod
+      @gin.register
+      def smake(m=DA):
+        return ('smake', m)
+      @classmethod
+      @gin.register
+      def cmake(cls, m=DA):
+        return ('cmake', m)
+    return FMembers
   return None
 
 
 def value_of(obj_or_result, shape):
-  if shape in (0,):
-    return obj_or_result[1]
-  if shape == 10:
-    return obj_or_result[1]
-  if shape == 3 and hasattr(obj_or_result, 'a'):
-    return obj_or_result.a
-  return obj_or_result.a
+  return proto(shape)[2](obj_or_result)
 
 
 def cleanup(names, objs):
@@ -202,27 +363,65 @@ def cleanup(names, objs):
     gc._RENAMED_SELECTORS.clear()
 
 
-def c13_shapes(shape: int, api: int, scoped: bool, v: int) -> bool:
+def registry_marks():
+  """What is registered right now (names, and identities of the inverse registry's keys)."""
+  with rt.native():
+    return set(gc._REGISTRY._selector_map), set(id(k) for k in gc._INVERSE_REGISTRY)
+
+
+def restore_registry(marks):
+  """Removes every registration made since `marks` was taken (test registrations must not leak)."""
+  with rt.native():
+    names, ids = marks
+    for n in list(gc._REGISTRY._selector_map):
+      if n not in names:
+        gc._REGISTRY.pop(n)
+    for k in list(gc._INVERSE_REGISTRY):
+      if id(k) not in ids:
+        del gc._INVERSE_REGISTRY[k]
+    gc._RENAMED_SELECTORS.clear()
+
+
+def c13_shapes(shape: int, api: int, scoped: bool, v: int, form: int = 0, use: int = 0) -> bool:
   """
-  pre: 0 <= shape < 13 and 0 <= api < 3
+  pre: 0 <= shape < 26 and 0 <= api < 3 and 0 <= form < 2 and 0 <= use < 3
   """
   world.fresh()
   shape = rt.pick(shape, NS)
   api = rt.pick(api, 3)
   scoped = rt.flag(scoped)
-  if shape == 12 and api == 0:
+  form = rt.pick(form, 2)     # 0: api(name, module=...)(target); 1: api(target) - name/module taken from the target
+  use = rt.pick(use, 3)       # what is done with the registry's version in addition (USES)
+  if shape in WITH_MEMBERS and api == 0:
     rt.discard()    # methods are renamed under their class only by register / external_configurable
-  rt.sig(('shapes', SHAPES[shape], APIS[api], scoped), nontrivial=True)
+  if shape in NOT_CALLED_BARE and form == 1:
+    rt.discard()    # no __name__ to take the default name from: outcome not fixed by the statement
+  if shape in BUILTIN_CLASSES and api == 0:
+    rt.discard()    # @gin.configurable would have to mutate an immutable builtin type
+  param, args, value, dflt, inj, pos_args, pos_want = proto(shape)
+  if use == 1 and pos_args is None:
+    rt.discard()
+  if use == 1 and shape in POSITIONAL_SELF_SHIFT:
+    rt.discard()    # see the comment at POSITIONAL_SELF_SHIFT
+  marks = registry_marks()
   with rt.native():
-    if api == 0 or shape == 12:
+    if api == 0 or shape in WITH_MEMBERS:
       target = fresh_shape(shape)
       if target is None:
-        target = MODULE_LEVEL[shape] if shape in (10, 11) else None
+        target = MODULE_LEVEL[shape]
     else:
       target = MODULE_LEVEL[shape]
-    name = 'T%d' % shape
-    sel = 'vw13.' + name
     is_class = inspect.isclass(target)
+    if use == 2 and not is_class:
+      rt.discard()
+    if form == 0:
+      name = 'T%d' % shape
+      sel = 'vw13.' + name
+    else:
+      # the documented defaults: the target's own __name__, under its own __module__ (when it has one)
+      name = target.__name__
+      own_module = getattr(target, '__module__', None)
+      sel = own_module + '.' + name if own_module else name
     before_vars = dict(vars(target)) if is_class else None
     before_sig = None
     try:
@@ -231,17 +430,23 @@ def c13_shapes(shape: int, api: int, scoped: bool, v: int) -> bool:
       pass
     before_doc, before_name = getattr(target, '__doc__', None), getattr(target, '__name__', None)
     before_mod = getattr(target, '__module__', None)
-  names = [sel, sel + '.meth', 'vf.harness.c13.meth']
+  rt.sig(('shapes', SHAPES[shape], APIS[api], scoped, FORMS[form], USES[use]), nontrivial=True)
   try:
-    if api == 0:
-      ret = gin.configurable(name, module='vw13')(target)
-    elif api == 1:
-      ret = gin.register(name, module='vw13')(target)
+    if form == 0:
+      if api == 0:
+        ret = gin.configurable(name, module='vw13')(target)
+      elif api == 1:
+        ret = gin.register(name, module='vw13')(target)
+      else:
+        ret = gin.external_configurable(target, name, module='vw13')
     else:
-      ret = gin.external_configurable(target, name, module='vw13')
-    has_a = shape not in (4, 11)
-    if has_a:
-      gin.bind_parameter(('s' if scoped else '', sel, 'a'), v)
+      if api == 0:
+        ret = gin.configurable(target)
+      elif api == 1:
+        ret = gin.register(target)
+      else:
+        ret = gin.external_configurable(target)
+    has_a = param is not None
     with rt.native():
       # -- what the registration call returns ------------------------------------------------
       if api == 1 and ret is not target:
@@ -254,7 +459,7 @@ def c13_shapes(shape: int, api: int, scoped: bool, v: int) -> bool:
         if (before_name is not None and getattr(ret, '__name__', None) != before_name) or (
             getattr(ret, '__doc__', None) != before_doc):
           return rt.no('name/doc of the returned object')
-        if shape != 11 and getattr(ret, '__module__', None) != before_mod:
+        if shape not in C_CALLABLES and getattr(ret, '__module__', None) != before_mod:
           return rt.no('module of the returned object')
         if before_sig is not None and not is_class:
           if inspect.signature(ret) != before_sig:
@@ -262,15 +467,17 @@ def c13_shapes(shape: int, api: int, scoped: bool, v: int) -> bool:
       if is_class and api in (0, 2):
         if not issubclass(ret, target):
           return rt.no('issubclass')
+    if has_a:
+      gin.bind_parameter(('s' if scoped else '', sel, param), v)
     # -- direct calls to the original receive nothing (register / external) --------------------
-    def call(fn):
+    def call(fn, *a, **k):
       if scoped:
         with gin.config_scope('s'):
-          return fn()
-      return fn()
-    if api in (1, 2) and has_a and shape != 11:
-      direct = call(target)
-      if not rt.same('direct call must not be injected', value_of(direct, shape), DA):
+          return fn(*a, **k)
+      return fn(*a, **k)
+    if api in (1, 2) and has_a:
+      direct = call(target, *args)
+      if not rt.same('direct call must not be injected', value(direct), dflt):
         return False
     # -- the registry's version is injected, through every way of reaching it --------------------
     ways = [gin.get_configurable(target) if api != 0 else ret,
@@ -278,22 +485,46 @@ def c13_shapes(shape: int, api: int, scoped: bool, v: int) -> bool:
     if api == 2:
       ways.append(ret)
     with rt.native():
-      gin.parse_config('vw.cons.p = @%s%s()' % ('s/' if scoped else '', sel))
+      if not args:
+        gin.parse_config('vw.cons.p = @%s%s()' % ('s/' if scoped else '', sel))
     for i, w in enumerate(ways):
-      if shape == 11:
-        break
-      res = call(w) if i != 1 else w()
-      if has_a and not rt.same('registry version injected', value_of(res, shape), v):
+      res = call(w, *args) if i != 1 else w(*args)
+      if not rt.same('registry version injected', value(res), inj(v) if has_a else dflt):
         return False
+      if use == 1:
+        # a positional argument of the caller over a bound parameter: the call must go through and the
+        # caller's value is the one that arrives (alignment of cls/self in front of the arguments)
+        res1 = call(w, *pos_args) if i != 1 else w(*pos_args)
+        if not rt.same('positional argument over a binding', value(res1), pos_want):
+          return False
+        with rt.native():
+          if is_class and not isinstance(res1, target):
+            return rt.no('positional construction: instance of the original class')
+          if is_class and shape not in WITH_MEMBERS and api != 0 and type(res1) is not target:
+            return rt.no('positional construction: exactly the original class')
+      if use == 2:
+        # using the registry's version like a class: a user subclass of it
+        with rt.native():
+          Sub = type(w)('Sub', (w,), {'extra': 1, '__module__': __name__})
+        sres = call(Sub) if i != 1 else Sub()
+        with rt.native():
+          if not isinstance(sres, target) or not isinstance(sres, Sub):
+            return rt.no('an instance of a user subclass must be an instance of it and of the original')
+          if not issubclass(Sub, target):
+            return rt.no('user subclass no longer a subclass of the original')
+        got_sub = value(sres)
+        # (whether the binding also applies to the user's own subclass is not fixed by the statement)
+        if has_a and not (got_sub == v or got_sub == dflt):
+          return rt.no('user subclass constructed with a foreign value')
       with rt.native():
         if is_class:
           if not isinstance(res, target):
             return rt.no('instance of the original class')
-          if shape != 12 and type(res) is not target and api != 0:
+          if shape not in WITH_MEMBERS and type(res) is not target and api != 0:
             return rt.no('exactly the original class when no method is overridden')
           if shape == 5 and not getattr(res, 'via_meta', False):
             return rt.no('custom metaclass __call__ bypassed')
-          if api in (1, 2) and shape not in (12,):
+          if api in (1, 2) and shape not in WITH_MEMBERS:
             try:
               blob = pickle.dumps(target() if shape != 9 else target())
               can = True
@@ -302,15 +533,18 @@ def c13_shapes(shape: int, api: int, scoped: bool, v: int) -> bool:
             if can:
               # (an instance holding a symbolic value cannot be pickled: construct a
               # second one through the same registry version with a concrete argument)
-              inst = (w(a=3) if has_a else w()) if i != 1 else (w(a=3) if has_a else w())
+              inst = w(**{param: 3}) if has_a else w()
               back = pickle.loads(pickle.dumps(inst))
-              if type(back) is not target or (has_a and back.a != 3):
+              if type(back) is not target or (has_a and value(back) != 3):
                 return rt.no('pickle round trip')
-    if shape != 11:
+    if not args:
       world.cons()
       got = world.LOG[-1][1][0]
-      if has_a and not rt.same('via reference', value_of(got, shape), v):
+      if has_a and not rt.same('via reference', value(got), v):
         return False
+      with rt.native():
+        if is_class and not isinstance(got, target):
+          return rt.no('via reference: instance of the original class')
     if shape == 12:
       with rt.native():
         obj = gin.get_configurable(sel)()
@@ -319,24 +553,73 @@ def c13_shapes(shape: int, api: int, scoped: bool, v: int) -> bool:
           return rt.no('registered method not injected through the class')
         if target().meth() != ('meth', DA) and api != 0:
           return rt.no('method of the original class was altered')
+        # scoped access combined with registered methods
+        if gin.get_configurable('u/' + sel)().meth() != ('meth', 99):
+          return rt.no('registered method not injected through a scoped selector (root binding)')
+        gin.bind_parameter('s/' + sel + '.meth.m', 98)
+        sobj = gin.get_configurable('s/' + sel)()
+        if not isinstance(sobj, target):
+          return rt.no('scoped class with a registered method: instance of the original class')
+        if sobj.meth() != ('meth', 98):
+          return rt.no('registered method of an instance made through a scoped selector misses the scope binding')
+        with gin.config_scope('s'):
+          if obj.meth() != ('meth', 98):
+            return rt.no('registered method called inside the scope misses the scope binding')
+        gin.parse_config('vw.cons.q = @s/%s()' % sel)
+        world.cons()
+        robj = world.LOG[-1][1][1]
+        if not isinstance(robj, target) or robj.meth() != ('meth', 98):
+          return rt.no('registered method of an instance made through a scoped reference misses the scope binding')
+        if target().meth() != ('meth', DA):
+          return rt.no('method of the original class was altered (scoped)')
+        with gin.config_scope('s'):
+          if target().meth() != ('meth', DA):
+            return rt.no('direct call of the original method injected inside a scope')
+    if shape == 25:
+      with rt.native():
+        # the statement fixes only the original's side here: whatever is bound for the registered
+        # members, the original class and direct calls through it stay as they were
+        for cand in (sel + '.smake.m', 'vf.harness.c13.smake.m', sel + '.cmake.m', 'vf.harness.c13.cmake.m'):
+          try:
+            gin.bind_parameter(cand, 99)
+          except ValueError:
+            pass
+        if target.smake() != ('smake', DA) or target().smake() != ('smake', DA):
+          return rt.no('staticmethod of the original class was altered')
+        if target.cmake() != ('cmake', DA) or target().cmake() != ('cmake', DA):
+          return rt.no('classmethod of the original class was altered')
+        after = dict(vars(target))
+        if set(after) != set(before_vars) or any(after[k] is not before_vars[k] for k in after):
+          return rt.no('the class with static/class members was altered')
     return True
   finally:
-    cleanup(names, [target, getattr(target, 'meth', None)])
+    restore_registry(marks)
 
 
 def registry_names():
   return set(gc._REGISTRY._selector_map)
 
 
+NC = 30
+REREG_DIFFERENT = (0, 16)        # a different object under an existing full name
+SAME_AGAIN = (25, 26, 27)        # the very same object under its own name again
+ANY_EXCEPTION = (23, 28, 29)     # the statement does not fix the exception type beyond "rejected"
+AFTER_FINALIZE = (28, 29)
+
+
 def c13_reject(case: int, api: int, interactive: int) -> bool:
   """
-  pre: 0 <= case < 13 and 0 <= api < 3 and 0 <= interactive < 3
+  pre: 0 <= case < 30 and 0 <= api < 3 and 0 <= interactive < 5
   """
   world.fresh()
-  case = rt.pick(case, 13)
+  case = rt.pick(case, NC)
   api = rt.pick(api, 3)
-  interactive = rt.pick(interactive, 3)   # 0 no, 1 inside interactive_mode, 2 after a block that raised
+  # 0 no, 1 inside `with interactive_mode()`, 2 after a block that raised,
+  # 3 between enter_interactive_mode() and exit_interactive_mode(), 4 after exit_interactive_mode()
+  interactive = rt.pick(interactive, 5)
+  inside = interactive in (1, 3)
   rt.sig(('reject', case, api, interactive), nontrivial=True)
+  marks = registry_marks()
   with rt.native():
     def first(a=1):
       return ('first', a)
@@ -344,7 +627,13 @@ def c13_reject(case: int, api: int, interactive: int) -> bool:
     def second(a=1):
       return ('second', a)
 
-    def reg(fn, name='c13r', module='vw13', allow=None, deny=None):
+    def reg(fn, name='c13r', module='vw13', allow=None, deny=None, bare=False):
+      if bare:
+        if api == 0:
+          return gin.configurable(fn)
+        if api == 1:
+          return gin.register(fn)
+        return gin.external_configurable(fn)
       if api == 0:
         return gin.configurable(name, module=module, allowlist=allow, denylist=deny)(fn)
       if api == 1:
@@ -353,8 +642,21 @@ def c13_reject(case: int, api: int, interactive: int) -> bool:
 
     try:
       reg(first)
-      if case in (8, 9):
+      if case in (8, 9, 27):
         _HOLD[0] = _cls_with_method()      # its method registers itself here, before the snapshot
+      _T.clear()
+      _T.update(_reject_targets())
+      _T['first'] = first
+      watched = _T.get(WATCH.get(case))    # the class a rejected registration must leave as it was
+      watched_vars = dict(vars(watched)) if watched is not None else None
+      if case == 26:
+        reg(_T['kcls'], name='c13k')
+      if case == 27:
+        if api == 0:
+          return True        # @gin.configurable does not re-key registered methods
+        reg(_HOLD[0], name='c13cls')
+      if case in AFTER_FINALIZE:
+        gin.finalize()
       before = registry_names()
       if interactive == 2:
         try:
@@ -362,17 +664,42 @@ def c13_reject(case: int, api: int, interactive: int) -> bool:
             raise KeyError('body raised')
         except KeyError:
           pass
+      if interactive == 4:
+        gin.config.enter_interactive_mode()
+        gin.config.exit_interactive_mode()
       exc = None
       try:
         if interactive == 1:
           with gin.config.interactive_mode():
             self_check = CASES[case](reg, second)
+        elif interactive == 3:
+          gin.config.enter_interactive_mode()
+          try:
+            CASES[case](reg, second)
+          finally:
+            gin.config.exit_interactive_mode()
         else:
           CASES[case](reg, second)
       except Exception as e:
         exc = e
       after = registry_names()
-      if case == 0 and interactive == 1:
+      if watched is not None and exc is not None:
+        now = dict(vars(watched))
+        if set(now) != set(watched_vars) or any(now[k] is not watched_vars[k] for k in now):
+          return rt.no('a rejected registration altered the class it was given')
+      if case in AFTER_FINALIZE:
+        # (that registering under a lock raises is C12's business; here: a registration that raises
+        # registers nothing, and a different object never replaces an existing name outside interactive mode)
+        if case == 29 and not inside and exc is None:
+          return rt.no('a different object under an existing full name accepted after finalize')
+        if exc is not None:
+          if after != before:
+            return rt.no('a registration that raised after finalize changed the registry: %r' % (after ^ before))
+          gc._set_config_is_locked(False)
+          if gin.get_configurable('vw13.c13r')() != ('first', 1):
+            return rt.no('existing entry replaced by a registration that raised after finalize')
+        return True
+      if case in REREG_DIFFERENT and inside:
         # re-registration of an existing name is allowed inside interactive mode only
         if exc is not None:
           return rt.no('interactive mode must allow re-registration')
@@ -387,7 +714,7 @@ def c13_reject(case: int, api: int, interactive: int) -> bool:
         if after != before:
           return rt.no('rejected class registration changed the registry: %r' % sorted(after ^ before))
         return True
-      if case == 12 and interactive == 1:
+      if case == 12 and inside:
         return exc is None
       if case == 12:
         if exc is None or not isinstance(exc, ValueError):
@@ -398,7 +725,42 @@ def c13_reject(case: int, api: int, interactive: int) -> bool:
       if case == 7:
         # same object under the same name again: allowed, nothing changes
         return exc is None and after == before
-      if exc is None or not isinstance(exc, (ValueError, TypeError)):
+      if case in SAME_AGAIN:
+        # The very same object under its own name again.  "Only inside interactive mode may an existing name be
+        # re-registered" can be read as forbidding this outside; gin lets it pass because the object is not
+        # "different".  Both are accepted outside interactive mode - but either way the entry must still be
+        # there and still work, and the original must still be untouched.
+        if inside and exc is not None:
+          return rt.no('interactive mode must allow re-registration (same object)')
+        if exc is not None and not isinstance(exc, ValueError):
+          return rt.no('same object again: unexpected %r' % (exc,))
+        if after != before:
+          return rt.no('same object again changed the set of registered names: %r' % (after ^ before))
+        if case == 25:
+          gin.bind_parameter('vw13.c13r.a', 7)
+          if gin.get_configurable('vw13.c13r')() != ('first', 7) or gin.get_configurable(first)() != ('first', 7):
+            return rt.no('entry no longer injected after the same function was registered again')
+          if first() != ('first', 1):
+            return rt.no('direct call injected after the same function was registered again')
+        if case == 26:
+          kcls = _T['kcls']
+          gin.bind_parameter('vw13.c13k.a', 7)
+          for w_ in (gin.get_configurable('vw13.c13k'), gin.get_configurable(kcls), gin.get_configurable('s/vw13.c13k')):
+            o_ = w_()
+            if o_.a != 7 or not isinstance(o_, kcls) or (api != 0 and type(o_) is not kcls):
+              return rt.no('class entry broken after the same class was registered again')
+          if api != 0 and kcls().a != 1:
+            return rt.no('direct construction injected after the same class was registered again')
+        if case == 27:
+          mcls = _HOLD[0]
+          gin.bind_parameter('vw13.c13cls.c13meth.m', 9)
+          o_ = gin.get_configurable('vw13.c13cls')()
+          if not isinstance(o_, mcls) or o_.c13meth() != ('c13meth', 9):
+            return rt.no('registered method lost after the same class was registered again')
+          if mcls().c13meth() != ('c13meth', 0):
+            return rt.no('method of the original class altered after the same class was registered again')
+        return True
+      if exc is None or not isinstance(exc, Exception if case in ANY_EXCEPTION else (ValueError, TypeError)):
         return rt.no('case %d must be rejected, got %r' % (case, exc))
       if after != before:
         return rt.no('a rejected registration changed the registry: %r' % (after ^ before))
@@ -416,6 +778,38 @@ def c13_reject(case: int, api: int, interactive: int) -> bool:
           del gc._INVERSE_REGISTRY[o_]
       gc._RENAMED_SELECTORS.clear()
       gc._INTERACTIVE_MODE = False
+      gc._set_config_is_locked(False)
+      restore_registry(marks)
+      _T.clear()
+
+
+_T = {}
+# reject case -> key (in _T) of the class whose vars() a rejected registration must leave untouched
+WATCH = {17: 'newonly', 18: 'newonly', 19: 'named', 20: 'initcls'}
+
+
+def _reject_targets():
+  class C13NewOnly:
+    def __new__(cls, a=1):
+      self = super().__new__(cls)
+      self.a = a
+      return self
+
+  class C13InitCls:
+    def __init__(self, a=1):
+      self.a = a
+
+  class C13K:
+    def __init__(self, a=1):
+      self.a = a
+
+  class C13Nameless:
+    def __call__(self, a=1):
+      return ('nameless', a)
+
+  return dict(newonly=C13NewOnly, initcls=C13InitCls, kcls=C13K,
+              named=collections.namedtuple('C13Named', ['a', 'b'], defaults=[1, 2]),
+              nameless=C13Nameless(), lam=lambda a=1: ('lam', a))
 
 
 def _twice(fn):
@@ -475,6 +869,24 @@ CASES = [
     lambda reg, f: reg(_twice(f), name='c13x', deny=['nope']),       # 11 unknown allow / deny name
     lambda reg, f: (reg(EqCallable('same', 1), name='c13eq'),        # 8 a DIFFERENT object that merely
                     reg(EqCallable('same', 2), name='c13eq')),       #   compares equal to the registered one
+    # ---- added by the widening round ----
+    lambda reg, f: reg(f, name='nl\n'),                      # 13 invalid name: identifier + trailing newline
+    lambda reg, f: reg(f, name='c13x', module='bad\n'),      # 14 invalid module: trailing newline
+    lambda reg, f: reg(_T['lam'], bare=True),                # 15 bare form, default name '<lambda>' is invalid
+    lambda reg, f: reg(f, name='vw13.c13r', module=None),    # 16 existing full name spelled through `name` alone
+    lambda reg, f: reg(_T['newonly'], name='c13x', allow=['nope']),   # 17 unknown allow name, __new__-only class
+    lambda reg, f: reg(_T['newonly'], name='c13x', deny=['nope']),    # 18 unknown deny name, __new__-only class
+    lambda reg, f: reg(_T['named'], name='c13x', allow=['nope']),     # 19 unknown allow name, namedtuple
+    lambda reg, f: reg(_T['initcls'], name='c13x', deny=['nope']),    # 20 unknown deny name, __init__ class
+    lambda reg, f: reg(f, name='c13x', allow=('nope',)),              # 21 unknown allow name given as a tuple
+    lambda reg, f: reg(f, name='c13x', allow=('a',), deny=('a',)),    # 22 both lists, as tuples
+    lambda reg, f: reg(_T['nameless'], name='c13x', allow=['nope']),  # 23 unknown allow name, callable object
+    lambda reg, f: reg(sum, name='c13x', deny=['nope']),              # 24 unknown deny name, builtin
+    lambda reg, f: reg(_T['first']),                                  # 25 the very same function again
+    lambda reg, f: reg(_T['kcls'], name='c13k'),                      # 26 the very same class again
+    lambda reg, f: reg(_HOLD[0], name='c13cls'),                      # 27 same class with a registered method again
+    lambda reg, f: reg(f, name='c13x'),                               # 28 new name, after finalize()
+    lambda reg, f: reg(f),                                            # 29 existing name, other object, after finalize()
 ]
 
 
@@ -483,27 +895,94 @@ HARNESSES = {
         fn='c13_shapes',
         anchors=['gin.config:_make_configurable', 'gin.config:_decorate_fn_or_cls', 'gin.config:register',
                  'gin.config:external_configurable', 'gin.config:get_configurable',
-                 'gin.config:meta_call_wrapper'],
+                 'gin.config:meta_call_wrapper', 'gin.config:configurable', 'gin.config:_ensure_wrappability',
+                 'gin.config:_find_registered_methods', 'gin.config:_decorate_with_scope',
+                 'gin.config:scoping_wrapper'],
         smoke=[dict(shape=1, api=1, scoped=True, v=5), dict(shape=5, api=2, scoped=False, v=5),
                dict(shape=12, api=1, scoped=False, v=5), dict(shape=0, api=0, scoped=True, v=5),
-               dict(shape=11, api=2, scoped=False, v=5)],
+               dict(shape=11, api=2, scoped=False, v=5),
+               # kinds of the widening round: every new shape, both forms, the three uses
+               dict(shape=13, api=2, scoped=True, v=5, form=1, use=2),
+               dict(shape=14, api=1, scoped=False, v=5, form=0, use=1),
+               dict(shape=14, api=0, scoped=False, v=5, form=1, use=2),
+               dict(shape=15, api=0, scoped=True, v=5, form=1, use=0),
+               dict(shape=15, api=2, scoped=False, v=5, form=0, use=2),
+               dict(shape=16, api=1, scoped=False, v=5, form=1, use=0),
+               dict(shape=17, api=2, scoped=True, v=5, form=0, use=0),
+               dict(shape=18, api=0, scoped=False, v=5, form=1, use=0),
+               dict(shape=19, api=2, scoped=False, v=5, form=1, use=0),
+               dict(shape=11, api=1, scoped=True, v=5, form=1, use=1),
+               dict(shape=20, api=2, scoped=True, v=5, form=1, use=2),
+               dict(shape=21, api=1, scoped=False, v=5, form=0, use=0),
+               dict(shape=22, api=1, scoped=True, v=5, form=1, use=0),
+               dict(shape=23, api=1, scoped=True, v=5, form=0, use=1),
+               dict(shape=23, api=1, scoped=False, v=5, form=1, use=0),
+               dict(shape=23, api=0, scoped=False, v=5, form=1, use=0),
+               dict(shape=24, api=0, scoped=False, v=5, form=1, use=0),
+               dict(shape=24, api=2, scoped=True, v=5, form=1, use=0),
+               dict(shape=25, api=1, scoped=False, v=5, form=1, use=0),
+               dict(shape=12, api=2, scoped=True, v=5, form=1, use=2),
+               dict(shape=2, api=0, scoped=False, v=5, form=1, use=1),
+               dict(shape=7, api=2, scoped=True, v=5, form=1, use=2)],
         tiers={'quick': dict(split=dict(shape=list(range(NS)), api=[0, 1, 2]), budget_s=100),
-               'thorough': dict(split=dict(shape=list(range(NS)), api=[0, 1, 2], scoped=[False, True]),
+               'thorough': dict(split=dict(shape=list(range(NS)), api=[0, 1, 2], form=[0, 1]),
                                 budget_s=300)},
-        bounds='13 shapes (function, 9 class shapes incl. custom metaclass, __slots__, both namedtuple flavours, ABC '
-               'subclass, callable object, builtin, class with a registered method) x 3 registration APIs x scoped or '
-               'not; bound value: all ints; reached through get_configurable(object), get_configurable(selector), the '
-               'returned wrapper and an evaluated reference'),
+        bounds='26 shapes (function, class shapes __init__/__new__/both/neither/custom metaclass/__slots__/both '
+               'namedtuple flavours/ABC subclass/dataclass with a default_factory field/frozen slots dataclass/'
+               'Exception subclass/falsy class (metaclass __len__ == 0)/builtin classes dict and OrderedDict, '
+               'callable object, falsy callable object, bound Python method, builtin sum (called, parameter start '
+               'bound), method-wrapper (5).__add__, slot wrapper int.__add__, method descriptor str.upper, bound '
+               'builtin method {}.get (all four called), class with a registered method, class with registered '
+               'staticmethod and classmethod members) x 3 registration APIs x 2 forms (name and module given; '
+               'bare decorator / no name: name from __name__, module from __module__) x scoped or not x 3 uses '
+               '(plain call; a positional argument over the bound parameter; a user subclass of the registry '
+               'version); bound value: all ints; reached through get_configurable(object), get_configurable('
+               'selector), the returned wrapper and an evaluated reference; registered methods also through '
+               'scoped selectors, a scoped reference and inside an active scope'),
     'c13_reject': dict(
         fn='c13_reject',
-        anchors=['gin.config:_make_configurable', 'gin.config:_validate_parameters', 'gin.config:interactive_mode'],
+        anchors=['gin.config:_make_configurable', 'gin.config:_validate_parameters', 'gin.config:interactive_mode',
+                 'gin.config:enter_interactive_mode', 'gin.config:exit_interactive_mode'],
         smoke=[dict(case=0, api=1, interactive=0), dict(case=0, api=0, interactive=1),
-               dict(case=4, api=2, interactive=2)],
-        tiers={'quick': dict(split=dict(case=list(range(13))), budget_s=100),
-               'thorough': dict(split=dict(case=list(range(13)), api=[0, 1, 2]), budget_s=300)},
-        bounds='12 rejected registrations (incl. a function behind two functools.wraps layers with an unknown allow/deny name; (incl. a class with a separately registered method and an unknown allow/deny name, (incl. a different callable object that compares equal to the registered one; (different object under an existing full name, invalid name x2, invalid module, '
-               'unknown allowlist / denylist name, both lists) x 3 APIs x {outside, inside interactive mode, after an '
-               'interactive block that raised}'),
+               dict(case=4, api=2, interactive=2),
+               dict(case=13, api=1, interactive=0), dict(case=14, api=0, interactive=0),
+               dict(case=15, api=0, interactive=4), dict(case=15, api=2, interactive=0),
+               dict(case=16, api=1, interactive=3), dict(case=16, api=2, interactive=4),
+               dict(case=17, api=0, interactive=0), dict(case=18, api=1, interactive=3),
+               dict(case=19, api=2, interactive=0), dict(case=20, api=0, interactive=1),
+               dict(case=21, api=1, interactive=0), dict(case=22, api=2, interactive=0),
+               dict(case=23, api=1, interactive=0), dict(case=24, api=2, interactive=0),
+               dict(case=25, api=0, interactive=0), dict(case=25, api=1, interactive=3),
+               dict(case=26, api=0, interactive=0), dict(case=26, api=2, interactive=1),
+               dict(case=27, api=1, interactive=0), dict(case=28, api=1, interactive=0),
+               dict(case=29, api=2, interactive=0), dict(case=0, api=2, interactive=3)],
+        tiers={'quick': dict(split=dict(case=list(range(NC))), budget_s=100),
+               'thorough': dict(split=dict(case=list(range(NC)), api=[0, 1, 2]), budget_s=300)},
+        bounds='30 cases x 3 APIs x {outside, inside `with interactive_mode()`, after an interactive block that '
+               'raised, between enter_interactive_mode() and exit_interactive_mode(), after '
+               'exit_interactive_mode()}.  Rejected registrations: different object under an existing full name '
+               '(also spelled through `name` alone with module=None), invalid names (leading digit, "a..b", '
+               'identifier + trailing newline, the default name of a lambda through the bare form), invalid module '
+               '("bad-mod", trailing newline), unknown allowlist / denylist name (plain function, function behind '
+               'two functools.wraps layers, class with a separately registered method, __new__-only class, '
+               '__init__ class, namedtuple, callable object without __name__, builtin sum, list given as a tuple), '
+               'both lists (lists or tuples), a different callable object that compares equal to the registered '
+               'one.  Accepted-or-rejected-atomically: the very same function / class / class with a registered '
+               'method registered again (entry, injection and the original must stay intact), a new name and an '
+               'existing name after finalize()'),
 }
 ASSUMPTIONS = ['registry contents are listed and cleaned up through the private _REGISTRY/_INVERSE_REGISTRY (test '
-               'registrations must not leak between paths)']
+               'registrations must not leak between paths)',
+               'bare-form registrations are reached through the selector <target.__module__>.<target.__name__> '
+               '(just <__name__> when the target has no __module__), the documented defaults',
+               'registering the very same object under its own name again outside interactive mode may either be '
+               'accepted or raise ValueError (the statement allows both readings); registering after finalize() '
+               'is judged only for atomicity (that it raises is property C12)']
+OUTSIDE = ('not judged: a positional argument over a bound parameter for callable objects and bound Python methods '
+           '(raises "multiple values" in gin - a caller-wins matter of C01, see POSITIONAL_SELF_SHIFT); whether a '
+           'binding applies to a user subclass of the registry version (either value accepted); the result of calling '
+           'a registered staticmethod through the registry version of its class; get_configurable(returned class); '
+           'side effects of the dynamic subclass on __init_subclass__ / __subclasses__(); enum / typing.Generic / '
+           'final builtin classes; nested interactive blocks; allowlist given as a str or set, an empty allowlist '
+           'together with a denylist; module=""; callable objects without __name__ through the bare form; '
+           '@gin.configurable on immutable builtin classes; async / generator functions; positional-only parameters')
